@@ -10,6 +10,7 @@ import (
 	"strings"
 	"sync/atomic"
 	"testing"
+	"time"
 
 	"github.com/flosch/pongo2/v6"
 	"pgregory.net/rapid"
@@ -657,6 +658,9 @@ func checkC03Hist(c any, r *Rec) error {
 			} else {
 				m.maybe = true
 			}
+		case "Debug":
+			// a debugging switch is no way back either
+			s.Debug = op.Name == "on"
 		case "CleanCache":
 			// cache maintenance is no way back: the set has created templates and stays frozen
 			if op.Name == "" {
@@ -712,8 +716,8 @@ func genC03Hist(t *rapid.T) *c03Hist {
 	h := &c03Hist{}
 	for i := 0; i < n; i++ {
 		op := c03Op{Set: drawInt(t, 0, 1, "set")}
-		op.Op = pickW(t, "op", []string{"BanTag", "BanFilter", "FromString", "FromBytes", "FromFile", "FromCache", "RenderTemplateString", "RenderTemplateBytes", "RenderTemplateFile", "ProbeTag", "ProbeFilter", "CleanCache"},
-			[]int{5, 5, 1, 1, 1, 1, 1, 1, 1, 2, 2, 2})
+		op.Op = pickW(t, "op", []string{"BanTag", "BanFilter", "FromString", "FromBytes", "FromFile", "FromCache", "RenderTemplateString", "RenderTemplateBytes", "RenderTemplateFile", "ProbeTag", "ProbeFilter", "CleanCache", "Debug"},
+			[]int{5, 5, 1, 1, 1, 1, 1, 1, 1, 2, 2, 2, 2})
 		switch op.Op {
 		case "BanTag", "ProbeTag":
 			op.Name = pick(t, "tagname", append([]string{"nosuchtag", "if", "if", "lorem", "for"}, tags...))
@@ -725,6 +729,8 @@ func genC03Hist(t *rapid.T) *c03Hist {
 			op.Name = pick(t, "file", []string{"/ok.tpl", "/bad.tpl", "/missing.tpl"})
 		case "CleanCache":
 			op.Name = pick(t, "cleanname", []string{"", "", "/ok.tpl", "/missing.tpl"})
+		case "Debug":
+			op.Name = pick(t, "dbg", []string{"on", "on", "off"})
 		}
 		h.Ops = append(h.Ops, op)
 	}
@@ -733,10 +739,80 @@ func genC03Hist(t *rapid.T) *c03Hist {
 
 var _ = register(&propSpec{
 	ID:    "C03.history",
-	Rule:  "call histories (1-12 operations on 2 sets) over BanTag, BanFilter, FromString, FromBytes, FromFile, FromCache (valid, broken and missing sources), RenderTemplateString/Bytes/File, CleanCache() / CleanCache(name) (which must not thaw a set), and probes that compile a one-tag / one-filter template; names drawn from registered, unregistered and already banned ones. Model per set: banned tags, banned filters, frozen flag. Ban* must succeed for a known, not yet banned name before the freeze and must be refused after it (unknown names and duplicates before the freeze may go either way); a refused ban changes nothing; every From*/Render* freezes (also when it fails); probes fail iff the model says banned; a final sweep probes every banned name and controls in both sets. Non-trivial: a ban of a known, not yet banned name refused after the freeze.",
+	Rule:  "call histories (1-12 operations on 2 sets) over BanTag, BanFilter, FromString, FromBytes, FromFile, FromCache (valid, broken and missing sources), RenderTemplateString/Bytes/File, CleanCache() / CleanCache(name) and switching Debug on / off (neither may thaw a set), and probes that compile a one-tag / one-filter template; names drawn from registered, unregistered and already banned ones. Model per set: banned tags, banned filters, frozen flag. Ban* must succeed for a known, not yet banned name before the freeze and must be refused after it (unknown names and duplicates before the freeze may go either way); a refused ban changes nothing; every From*/Render* freezes (also when it fails); probes fail iff the model says banned; a final sweep probes every banned name and controls in both sets. Non-trivial: a ban of a known, not yet banned name refused after the freeze.",
 	Gen:   func(t *rapid.T) any { return genC03Hist(t) },
 	New:   func() any { return &c03Hist{} },
 	Check: checkC03Hist,
 })
 
 func TestC03History(t *testing.T) { runProp(t, "C03.history") }
+
+// ---- C03.concurrent: a ban that arrives while the first template is being compiled -----------
+// Whatever BanTag / BanFilter answers in that window, the guarantee must hold afterwards: if the
+// ban was accepted, no template of the set uses the banned name.
+
+type c03Conc struct {
+	Kind    string `json:"kind"`     // tag | filter
+	UseHead bool   `json:"use_head"` // the banned construct stands before (true) or behind the slow include
+	DelayMs int    `json:"delay_ms"`
+	BanAtMs int    `json:"ban_at_ms"`
+}
+
+func checkC03Conc(c any, r *Rec) error {
+	cs := c.(*c03Conc)
+	use, name := "{% lorem 2 w %}", "lorem"
+	if cs.Kind == "filter" {
+		use, name = `{{ "x"|upper }}`, "upper"
+	}
+	root := `A{% include "/slow.tpl" %}` + use + "Z"
+	if cs.UseHead {
+		root = "A" + use + `{% include "/slow.tpl" %}Z`
+	}
+	ld := newMemLoader(map[string]string{"/root.tpl": root, "/slow.tpl": "slow"})
+	set := pongo2.NewSet("c03conc", ld)
+	ld.setDelay(time.Duration(cs.DelayMs) * time.Millisecond)
+	var tpl *pongo2.Template
+	var cerr, banErr error
+	done := make(chan struct{})
+	go func() {
+		defer close(done)
+		tpl, cerr = set.FromFile("/root.tpl")
+	}()
+	time.Sleep(time.Duration(cs.BanAtMs) * time.Millisecond)
+	if cs.Kind == "filter" {
+		banErr = set.BanFilter(name)
+	} else {
+		banErr = set.BanTag(name)
+	}
+	<-done
+	ld.setDelay(0)
+	if banErr == nil && cerr == nil {
+		out, xerr := tpl.Execute(nil)
+		return fmt.Errorf("Ban%s(%q) was accepted %d ms after FromFile had started (loader delay %d ms) and the template using it still compiled (renders %q, err %v): the set has banned %q and has a template that uses it\n root=%q", strings.Title(cs.Kind), name, cs.BanAtMs, cs.DelayMs, out, xerr, name, root)
+	}
+	// later templates obey whatever was decided
+	_, perr := set.FromString(use)
+	if (banErr == nil) != (perr != nil) {
+		return fmt.Errorf("Ban%s(%q) returned %v, but a template using it compiled afterwards: %v", strings.Title(cs.Kind), name, banErr, perr == nil)
+	}
+	if banErr == nil {
+		r.Class("ban-won")
+	} else {
+		r.Class("ban-refused")
+	}
+	r.NonTrivial(fmt.Sprint(*cs))
+	return nil
+}
+
+var _ = register(&propSpec{
+	ID:   "C03.concurrent",
+	Rule: "while the first FromFile of a set is inside a slow loader (5-25 ms per fetch; the banned construct written before or behind the slow include) another goroutine calls BanTag / BanFilter at a drawn moment (before, during, after). Oracle, independent of who wins: an accepted ban and a compiled template that uses the banned name must not coexist, and templates compiled afterwards obey the answer the ban got. Non-trivial: every case.",
+	Gen: func(t *rapid.T) any {
+		d := drawInt(t, 5, 25, "delay")
+		return &c03Conc{Kind: pick(t, "kind", []string{"tag", "filter"}), UseHead: drawBool(t, "head"), DelayMs: d, BanAtMs: drawInt(t, 0, 3*d, "banat")}
+	},
+	New:   func() any { return &c03Conc{} },
+	Check: checkC03Conc,
+})
+
+func TestC03Concurrent(t *testing.T) { runProp(t, "C03.concurrent") }
